@@ -9,7 +9,7 @@ from . import spec
 from .build import Build, FieldInfo, MsgInfo
 from .spec import Record
 
-LEGAL = ["permute", "pack_toggle", "chunk_split", "pad_value", "pad_len", "pad_tag", "dup_scalar",
+LEGAL = ["permute", "pack_toggle", "chunk_split", "pad_value", "pad_packed", "pad_len", "pad_tag", "dup_scalar",
          "dup_oneof", "unknown_interleave"]
 
 
@@ -159,6 +159,31 @@ class WireGen:
         pad = self.rng.randint(1, room)
         raws = [x.raw for x in recs]
         raws[i] = spec.enc_record(r.number, r.wt, r.value, val_pad=pad)
+        return b"".join(raws), True
+
+    def _op_pad_packed(self, mi, fields, recs):
+        """non-minimal varints for elements INSIDE a packed payload"""
+        cands = [i for i, r in enumerate(recs) if r.number in fields and fields[r.number].label == "repeated"
+                 and fields[r.number].kind in spec.VARINT_KINDS and r.wt == spec.WT_LEN and len(r.value)]
+        if not cands:
+            return b"".join(r.raw for r in recs), False
+        i = self.rng.choice(cands)
+        r = recs[i]
+        elems = split_packed(fields[r.number].kind, r.value)
+        out = []
+        changed = False
+        for e in elems:
+            v, _ = spec.dec_varint(e, 0)
+            room = 10 - len(e)
+            if room > 0 and self.rng.random() < 0.6:
+                out.append(spec.enc_varint(v, pad=self.rng.randint(1, room)))
+                changed = True
+            else:
+                out.append(e)
+        if not changed:
+            return b"".join(x.raw for x in recs), False
+        raws = [x.raw for x in recs]
+        raws[i] = spec.enc_record(r.number, spec.WT_LEN, b"".join(out))
         return b"".join(raws), True
 
     def _op_pad_len(self, mi, fields, recs):
